@@ -27,7 +27,16 @@ class TaskError(Exception):
     pass
 
 
-def task(i, c, d, fail):
+class Unpicklable:
+    """a value that cannot be sent back to the caller"""
+    def __reduce__(self): raise TypeError("this result cannot be pickled")
+
+
+class UnpicklableError(Exception):
+    def __reduce__(self): raise TypeError("this exception cannot be pickled")
+
+
+def task(i, c, d, fail, transport=None):
     lp = os.path.join(d, "events.log")
     log(lp, ev="TStart", c=c, i=i)
     gate = os.path.join(d, "go_%d_%d" % (c, i)); allg = os.path.join(d, "go_all_%d" % c)
@@ -37,6 +46,8 @@ def task(i, c, d, fail):
         if time.time() - t0 > 30: break
     if i in fail:
         log(lp, ev="TEnd", c=c, i=i, ok=False)
+        if transport == "result": return Unpicklable()          # the task ends, its outcome cannot reach the caller
+        if transport == "exception": raise UnpicklableError(c, i)
         raise TaskError(c, i)
     log(lp, ev="TEnd", c=c, i=i, ok=True)
     return (c, i)
@@ -98,7 +109,7 @@ def one_run(cfg, d, runid):
                     log(lp, ev="PullStop", c=tag, th=me); raise StopIteration
                 i = q.i; q.i += 1
                 log(lp, ev="Pull", c=tag, i=i, th=me)
-                return delayed(task)(i, tag, d, fail)
+                return delayed(task)(i, tag, d, fail, cfg.get("transport") if callno == 0 else None)
         log(lp, ev="CallStart", c=tag, n=n, mode=MODES[cfg["mode"]], nj=nj, maxb=cfg["bs"], pre=pre, bound=pre + 2 * nj * cfg["bs"], slack=3, ticks=-1, serial=True)
         stop = threading.Event()
 
@@ -119,26 +130,46 @@ def one_run(cfg, d, runid):
                 time.sleep(cfg.get("pace", 0.01))
             open(os.path.join(d, "go_all_%d" % tag), "w").close()
         ot = threading.Thread(target=opener, daemon=True); ot.start()
-        kind = None; ei = -1
-        try:
-            r = p(It())
-            if cfg["mode"] == "list":
-                for x in r: log(lp, ev="Yield", c=x[0], i=x[1])
-                kind = "returned"
-            else:
-                k = 0
-                while True:
-                    if cfg.get("closeat") is not None and k == cfg["closeat"] and callno == 0:
-                        log(lp, ev="Close"); r.close(); kind = "closed"; break
-                    log(lp, ev="Next")
-                    try:
-                        x = next(r); log(lp, ev="Yield", c=x[0], i=x[1]); k += 1
-                    except StopIteration:
-                        kind = "returned"; break
-        except TaskError as e:
-            kind = "raised_task"; ei = e.args[1] if e.args[0] == tag else -1
-        except BaseException as e:
-            kind = "other:" + type(e).__name__; notes.append(repr(e)[:200])
+        res = {"kind": None, "ei": -1}
+
+        def body():
+            kind = None; ei = -1
+            try:
+                r = p(It())
+                if cfg["mode"] == "list":
+                    for x in r: log(lp, ev="Yield", c=x[0], i=x[1])
+                    kind = "returned"
+                else:
+                    k = 0
+                    while True:
+                        if cfg.get("closeat") is not None and k == cfg["closeat"] and callno == 0:
+                            log(lp, ev="Close"); r.close(); kind = "closed"; break
+                        log(lp, ev="Next")
+                        try:
+                            x = next(r); log(lp, ev="Yield", c=x[0], i=x[1]); k += 1
+                        except StopIteration:
+                            kind = "returned"; break
+            except TaskError as e:
+                kind = "raised_task"; ei = e.args[1] if e.args[0] == tag else -1
+            except BaseException as e:
+                if cfg.get("transport") and callno == 0 and fail:
+                    # the outcome of the failing task could not be transported: whatever error reports that is "its" error
+                    kind = "raised_task"; ei = min(fail); notes.append("transport failure reported as " + type(e).__name__)
+                else:
+                    kind = "other:" + type(e).__name__; notes.append(repr(e)[:200])
+            res["kind"] = kind; res["ei"] = ei
+        bt = threading.Thread(target=body, daemon=True); bt.start(); bt.join(cfg.get("watchdog", 40))
+        if bt.is_alive():
+            log(lp, ev="End", kind="hang", i=-1); notes.append("call did not terminate within the watchdog")
+            stop.set()
+            events = []
+            for l in open(lp):
+                try: events.append(json.loads(l))
+                except ValueError: pass
+            for e in events:
+                if "c" in e: e["c"] = e["c"] - runid * 10
+            return {"events": events, "notes": notes, "hung": True}
+        kind = res["kind"]; ei = res["ei"]
         log(lp, ev="End", kind=kind, i=ei)
         stop.set()
         open(os.path.join(d, "go_all_%d" % tag), "w").close()
@@ -166,6 +197,10 @@ def main():
             out.append(one_run(cfg, d, k + 1))
         except BaseException as e:
             out.append({"events": [], "notes": ["driver error " + repr(e)[:300]]})
+        if out[-1].get("hung"):
+            # a call that hangs leaves this process unusable: the remaining runs are reported as not run
+            for _ in job["runs"][k + 1:]: out.append({"events": [{"ev": "NotRun"}], "notes": ["not run: an earlier call of this driver hung"], "skipped": True})
+            break
     json.dump(out, open(sys.argv[1] + ".out", "w"))
     os._exit(0)
 
